@@ -66,6 +66,10 @@ type Case struct {
 	Edges  uint32
 	Perm   []int // BronKerbosch: the candidate list P
 	AliasX bool  // BronKerbosch: X = P[:0] and R with capacity N (exactly what GetMaximalCliques does) instead of X = nil, R = nil
+	// GetMaximalCliques: all vertices are added first, then the edges one by one between existing
+	// vertices, and the graph is QUERIED after every edge (history: whatever a query leaves
+	// behind in the Graph must not survive a later AddEdge); only the final answer is judged
+	Incremental bool
 }
 
 // pairs[k] = k-th vertex pair, ordered so that the graphs on n vertices use the first n(n-1)/2 bits.
@@ -144,6 +148,7 @@ type Outcome struct {
 	Best     []Item         // DpSolvers.Best(Limit)
 	BestOver []Item         // DpSolvers.BestAllowMinOverflow(Limit)
 	Cliques  [][]int        // GetMaximalCliques / BronKerbosch
+	Stale    string         // non-empty: an earlier result changed during this call
 }
 
 func weightOf(i Item) int { return i.W }
@@ -165,12 +170,33 @@ func breakerFor(b int) []func(old, new []Item) bool {
 // runCase executes case c on golib and returns the raw results. It shares nothing with other
 // cases (the item list is copied, the Graph is built here), so it can be executed any number of
 // times, in any goroutine, under any map-iteration order.
+// the selection returned by the previous Knapsack call of this process (enumeration runs in
+// single-threaded shard processes)
+var (
+	heldSel, heldCopy []Item
+	heldCase          Case
+)
+
+func sameItems(a, b []Item) bool {
+	for i := range a {
+		if a[i] != b[i] {
+			return false
+		}
+	}
+	return true
+}
+
 func runCase(c Case) (out Outcome) {
 	val, st, p := common.Catch(func() {
 		switch c.Kind {
 		case kKnapsack:
 			items := append([]Item(nil), c.Items...)
 			out.Sel = algz.Knapsack(c.Limit, items, weightOf, valueOf, breakerFor(c.Breaker)...)
+			// a returned selection is a value: it must not change when Knapsack is called again
+			if len(heldSel) != len(heldCopy) || !sameItems(heldSel, heldCopy) {
+				out.Stale = fmt.Sprintf("the selection returned by the previous Knapsack call (%s) read %v when it was returned and %v after this call", heldCase.describe(), heldCopy, heldSel)
+			}
+			heldSel, heldCopy, heldCase = out.Sel, append([]Item(nil), out.Sel...), c
 		case kDp:
 			items := append([]Item(nil), c.Items...)
 			m := algz.FindDpSolvers(c.Limit, items, valueOf, c.AllowOver, breakerFor(c.Breaker)...)
@@ -179,6 +205,20 @@ func runCase(c Case) (out Outcome) {
 			out.BestOver = m.BestAllowMinOverflow(c.Limit)
 		case kCliques, kBK:
 			var g algz.Graph[int]
+			if c.Incremental {
+				for v := 0; v < c.N; v++ {
+					g.AddNode(v)
+				}
+				g.GetMaximalCliques()
+				for k := 0; k < c.N*(c.N-1)/2; k++ {
+					if e := pairs[k]; c.Edges>>uint(k)&1 == 1 {
+						g.AddUndirectedEdge(e[0], e[1])
+						g.GetMaximalCliques()
+					}
+				}
+				out.Cliques = g.GetMaximalCliques()
+				return
+			}
 			hasEdge := make([]bool, c.N)
 			for k := 0; k < c.N*(c.N-1)/2; k++ {
 				if e := pairs[k]; c.Edges>>uint(k)&1 == 1 {
@@ -363,6 +403,9 @@ func judgeKnapsack(c Case, out Outcome, opt int, s *shard) {
 	if out.Panicked {
 		s.violation("Knapsack|panic|"+common.PanicSite(out.Stack), "Knapsack panicked: "+out.PanicVal, c, gt)
 		return
+	}
+	if out.Stale != "" {
+		s.violation("Knapsack|result-changed-after-a-later-call", out.Stale, c, gt)
 	}
 	w, v, twice, foreign := inspect(out.Sel, c.Items)
 	cls := tbClass(c.Breaker)
@@ -780,6 +823,10 @@ func graphSpace(r *common.Run, maxN int, allPermsUpTo int) {
 				c := base
 				c.Kind = kCliques
 				run(c)
+				n1++
+				ci := base
+				ci.Kind, ci.Incremental = kCliques, true
+				run(ci)
 				n1++
 				for _, alias := range []bool{false, true} {
 					perms := permsPlain
